@@ -136,13 +136,13 @@ var pipeOpNames = [...]string{"WriteBytes", "Reserve", "WriteByte", "WriteString
 	"exhaustion", "OpenStream", "census", "Close"}
 
 const (
-	pipeFAlias    = 1 << iota // result aliases share memory
-	pipeFCross                // crossed a slice boundary
-	pipeFSocket               // message went (or stream is) on the socket
-	pipeFMulti                // flushed chain had >= 2 slices
-	pipeFSynced               // executed after logical quiescence
-	pipeFSwapped              // ReleaseReadAndReuse really swapped the buffers
-	pipeFHeapAlias            // result aliases a socket-carried (heap) slice
+	pipeFAlias     = 1 << iota // result aliases share memory
+	pipeFCross                 // crossed a slice boundary
+	pipeFSocket                // message went (or stream is) on the socket
+	pipeFMulti                 // flushed chain had >= 2 slices
+	pipeFSynced                // executed after logical quiescence
+	pipeFSwapped               // ReleaseReadAndReuse really swapped the buffers
+	pipeFHeapAlias             // result aliases a socket-carried (heap) slice
 )
 
 type pipeOp struct {
@@ -278,7 +278,6 @@ type pipeExec struct {
 	scribRound uint64
 	bgWG       sync.WaitGroup
 	bgPanic    atomic.Value
-	detSusp    uint64
 }
 
 func (e *pipeExec) violate(format string, a ...interface{}) {
@@ -1910,7 +1909,7 @@ func pipeRunCase(c *checkCtx, cs pipeCase, pos int, tot *pipeTotals, out *pipeOu
 	}
 	if e.crossW && e.crossR && e.viol == "" {
 		msg.Key = e.traceHash()
-		if tot.samples < 2 && (tot.samples == 0 || cs.Idx%7 == 3) {
+		if !cs.Directed && tot.samples < 2 && (tot.samples == 0 || cs.Idx%7 == 3) {
 			tot.samples++
 			msg.Sample = map[string]interface{}{"case": cs, "classes": e.caps, "first_ops": e.traceTail(1 << 30)[:pipeMin(30, len(e.trace))]}
 		}
@@ -1990,7 +1989,7 @@ func pipeCounterMap(tot *pipeTotals) map[string]int64 {
 func pipeCases(c *checkCtx, prop string) []pipeCase {
 	var cases []pipeCase
 	if prop == "C06" {
-		n := c.pick(1000, 40000)
+		n := c.pick(800, 40000)
 		for ci, cfg := range pipeCfgs {
 			for li, lv := range []int{0, 100} {
 				cases = append(cases, pipeCase{Prop: "C06", Idx: 1000000 + ci*2 + li, Mode: "c06", Cfg: cfg.Name, MemFd: li == 0, Directed: true,
@@ -2001,7 +2000,7 @@ func pipeCases(c *checkCtx, prop string) []pipeCase {
 			cases = append(cases, pipeGenCase(c, "C06", i, 0))
 		}
 	} else {
-		n := c.pick(300, 20000)
+		n := c.pick(400, 20000)
 		for i := 0; i < n; i++ {
 			cases = append(cases, pipeGenCase(c, "C08", i, n/5))
 		}
@@ -2074,11 +2073,9 @@ func pipeChildMain(args []string) {
 // ---- parent side
 
 type pipeParent struct {
-	mu      sync.Mutex
-	maxes   map[string]int64
-	deaths  int32
-	evalN   int64
-	samples int
+	mu     sync.Mutex
+	maxes  map[string]int64
+	deaths int32
 }
 
 func pipeDrive(c *checkCtx, prop string, part, parts, workers int, pp *pipeParent) {
